@@ -371,6 +371,69 @@ theorem placed_once (p : Prog) (hwf : WF p) (b : Built) (tr : List Ev)
     (h : build p = .ok (b, tr)) : ((placed tr []).map Prod.fst).Nodup := by
   rw [placed_fst]; exact emitted_nodup p hwf b tr h
 
+/-! ### values depending on a body's own arguments are not read from above (outer half) -/
+
+/-- **arg_dependent_not_read_above**: in a successful build, a value that depends — through any chain
+    of input edges — on an argument of a body `s` is not read (through input edges, i.e. outside every
+    body) by the main graph or any graph `g` that `s` is nested below. The sibling half is the final
+    checker's (see `exSiblingLeak`). -/
+theorem arg_dependent_not_read_above (p : Prog) (hwf : WF p) (b : Built) (tr : List Ev)
+    (h : build p = .ok (b, tr)) (g s : Nat) (hg : g ∈ b.graphTopo) (hs : Below p s g)
+    (pg : PGraph) (l : List Nat) (hpg : p.graphs[s]? = some pg) (hl : pg.args = some l)
+    (a : Nat) (ha : a ∈ l) (v : V) (hdep : Reach p.adjIn v (.node a)) :
+    ¬ Reach p.adjIn (.src g) v :=
+  fun hr => no_outer_leak p hwf b tr h g s hg hs pg l hpg hl a ha (Reach.trans hr hdep)
+
+/-! ### `spox.build(inputs, outputs, drop_unused_inputs=…)` -/
+
+/-- **public_inputs_sublist**: with `drop_unused_inputs=True` the inputs of the returned model are a
+    sub-list of the given inputs — nothing is invented, the given relative order is kept. -/
+theorem public_inputs_sublist (p : Prog) (inputs : List Nat) (b : Built) (tr : List Ev)
+    (kept : List Nat) (h : publicBuild p inputs true = .ok (b, tr, kept)) :
+    kept.Sublist inputs := by
+  unfold publicBuild at h
+  split at h
+  · cases h
+  · simp only at h
+    split at h
+    · cases h
+    · cases h
+      simp only [keptInputs, if_true]
+      exact List.filter_sublist
+
+/-- **public_inputs_exact**: an input is kept iff it was given and the traversal found it as an
+    argument of the main graph (`arguments_of[main]`, which no body claims); and every argument the
+    main graph needs was given (else `KeyError`), with or without `drop_unused_inputs`. -/
+theorem public_inputs_exact (p : Prog) (inputs : List Nat) (drop : Bool) (b : Built) (tr : List Ev)
+    (kept : List Nat) (h : publicBuild p inputs drop = .ok (b, tr, kept)) :
+    (∀ a, a ∈ lookupL b.argsOf 0 → a ∈ inputs) ∧
+    (∀ a, a ∈ kept ↔ a ∈ inputs ∧ a ∈ lookupL b.argsOf 0) ∧
+    build (p.withMainArgs (if drop then none else some inputs)) = .ok (b, tr) := by
+  unfold publicBuild at h
+  split at h
+  · cases h
+  · rename_i b' tr' hb
+    simp only at h
+    split at h
+    · cases h
+    · rename_i hany
+      cases h
+      have hall : ∀ a, a ∈ lookupL b.argsOf 0 → a ∈ inputs := by
+        intro a ha
+        apply Classical.byContradiction
+        intro hn
+        apply hany
+        rw [List.any_eq_true]
+        exact ⟨a, ha, by simpa using hn⟩
+      refine ⟨hall, ?_, hb⟩
+      intro a
+      cases drop with
+      | true =>
+        simp only [keptInputs, if_true, List.mem_filter, List.contains_iff_mem]
+      | false =>
+        simp only [keptInputs, Bool.false_eq_true, if_false]
+        exact ⟨fun ha => ⟨hall a ha, ha⟩, fun ha => ha.2⟩
+
 /-! ### the bridge to the shared program model (C01): the built emission is accepted by `validG` -/
 
 /-- **build_valid_of_facts**: from the scope facts `BridgeFacts` (all of which are consequences of the
